@@ -26,6 +26,8 @@ type liveCase struct {
 	FrontEnd    string            // drc | do-approve
 	Compare     bool
 	Spelling    string // other spelling of the compare verb / flag on the command line
+	InfoRaw     string // content of the .info file instead of the generated one
+	Unreachable bool   // SIMULATE_ROUTER points to nothing that answers
 	CheckBanner string // regexp; "" = not configured
 	Credentials string // content of credentials file
 	Timeout     int
@@ -104,6 +106,9 @@ func (lc *liveCase) prepare(env *run.Env, dir string) (home, base string) {
 		"home/.netspoc-approve":                         conf,
 		"base/credentials":                              cred,
 		"base/policies/p1/code/" + lc.DevName + ".info": string(info) + "\n",
+	}
+	if lc.InfoRaw != "" {
+		files["base/policies/p1/code/"+lc.DevName+".info"] = lc.InfoRaw
 	}
 	for n, d := range lc.Files {
 		files["base/policies/p1/code/"+n] = d
@@ -196,6 +201,13 @@ func (lc *liveCase) run(env *run.Env) *liveResult {
 		spec := filepath.Join(dir, "spec.json")
 		lc.Cli.Write(spec)
 		simulate = filepath.Join(env.Verif, ".work/bin/simcli") + " " + spec
+	}
+	if lc.Unreachable {
+		if lc.HTTP != nil {
+			simulate = "https://127.0.0.1:1"
+		} else {
+			simulate = "/bin/false"
+		}
 	}
 	argv, e := lc.command(env, dir, home, base, simulate)
 	// GC stress for every fourth live run: nothing the session depends on
